@@ -56,6 +56,11 @@ def jobs(tier, seed):
                 progs.append(p)
     for i, p in enumerate(progs):
         out.append({'prog': p, 'share': bool(i % 2)})
+    # nested blocks of 3 steps in which two operations of one kind can hang on one shared link object (value-equal when their durations
+    # are equal): they are distinct operations and both must stay listed after the block was copied into the parent
+    inner3 = list(gen.flat_programs(3, [['W', 0, 'ALL'], ['W', 1, 'ALL']]))
+    nested3 = list(gen.nested_programs(ALPHA_U[:1], inner3, 1)) + gen.sample(gen.nested_programs(ALPHA_U[:2], inner3, 2, types='F'), 150 if tier == 'quick' else 1500, seed + 8)
+    out += [{'prog': p, 'share': True} for p in nested3]
     return out
 
 
@@ -66,7 +71,7 @@ def _index_of(ops, obj):
 def run(ctx, params):
     g = cm.Globals(ctx)
     with g.override():
-        built = cm.build(ctx, params['prog'], share_links=params.get('share', False))
+        built = cm.build(ctx, params['prog'], share_links=params.get('share', False), lost_label='C02.copied_block_complete')
         circuit = built.circuit
         # last entry before listing
         if built.nodes:
